@@ -8,5 +8,17 @@ if ! cargo build --release 2>sched_build.log >/dev/null; then
   echo "HARNESS-ERROR build failed (memory.rs / membership.rs no longer compile standalone with the shuttle swap)"
   exit 2
 fi
-if [ "$MODE" = "--replay" ]; then exec ./target/release/qesched replay "$ID" "$3"; fi
+if [ "$MODE" = "--replay" ]; then
+  case "$3" in *C33-miri-*) exec ./miri.sh --replay "$3" ;; esac
+  exec ./target/release/qesched replay "$ID" "$3"
+fi
+if [ "$ID" = "C33" ] && [ "$MODE" = "thorough" ]; then
+  # thorough tier: the shuttle search, then the same source under Miri (weak memory, data races)
+  ./target/release/qesched check "$ID" "$MODE"; A=$?
+  [ "$A" -eq 2 ] && exit 2
+  ./miri.sh "${VERIF_SEED:-20260921}"; B=$?
+  [ "$B" -eq 2 ] && exit 2
+  [ "$A" -ne 0 ] || [ "$B" -ne 0 ] && exit 1
+  exit 0
+fi
 exec ./target/release/qesched check "$ID" "$MODE"
